@@ -172,7 +172,7 @@ class World5:
         self.w = TunnelWorld(("c05", seed, k), ROLES, community_cls=C05Community, key_offset=seed % 5,
                              remove_tunnel_delay=0)
         w = self.w
-        self.addr = {n: tuple(node.address) for n, node in w.nodes.items()}
+        self.addr = {n: node.address for n, node in w.nodes.items()}     # UDPv4Address, as a real endpoint reports
         self.prefix = w.ov["ADV"].get_prefix()
         self.live = [True] * k
         self.sent = [0] * k            # forward packets delivered outside, per circuit
@@ -200,12 +200,12 @@ class World5:
         # one packet out and one reply on every circuit: opens every exit socket, records cells on every link
         for p in self.plans:
             self.setup_violations += self._send(p.index, "setup")
-            tr = w.ov[p.exit].exit_sockets[p.ids[-1]].transport_ipv4
-            self.exit_tr[p.index] = tr
-        for p in self.plans:
-            if self.exit_tr[p.index] is None:
-                raise HarnessError(f"exit socket of circuit {p.index} did not open")
-            self.setup_violations += self._reply(p.index, "setup")
+            sock = w.ov[p.exit].exit_sockets.get(p.ids[-1])
+            self.exit_tr[p.index] = sock.transport_ipv4 if sock is not None else None
+        self.broken = any(tr is None for tr in self.exit_tr)     # no packet left: nothing to explore from here
+        if not self.broken:
+            for p in self.plans:
+                self.setup_violations += self._reply(p.index, "setup")
         self.trace.append(self.digest())
 
     # -- construction ---------------------------------------------------------------------------------------------
@@ -351,7 +351,7 @@ class World5:
 
     def _name(self, addr) -> str:  # noqa: ANN001
         for n, a in self.addr.items():
-            if a == tuple(addr):
+            if tuple(a) == tuple(addr):
                 return n
         return str(tuple(addr))
 
@@ -368,7 +368,7 @@ class World5:
         """Abstract state: key sets per node (+ originator circuit state), live flags, delivery counts, waits."""
         tabs = tuple((n, t, tuple(sorted((k, getattr(o, "state", "")) for k, o in table.items())))
                      for n, t, table in self._tables())
-        closed = tuple(tr.closed for tr in self.exit_tr)
+        closed = tuple(tr is None or tr.closed for tr in self.exit_tr)
         return core.digest((tabs, tuple(self.live), tuple(self.sent), tuple(self.replied), closed, self.lapses,
                             len(self.w.loop.exceptions)))
 
@@ -450,7 +450,7 @@ class World5:
             u, v = p.nodes[l], p.nodes[l + 1]
             for a, b in ((u, v), (v, u)):
                 for dg in reversed(self.w.wire_log):
-                    if tuple(dg.src) == self.addr[a] and tuple(dg.dst) == self.addr[b]:
+                    if tuple(dg.src) == tuple(self.addr[a]) and tuple(dg.dst) == tuple(self.addr[b]):
                         f = self.w.cell_fields(dg.data)
                         if f and f[0] == cid and not f[1]:
                             out.append((f"{a}->{b}", dg.data))
@@ -656,7 +656,7 @@ def run_history(k: int, seed: int, history: list) -> tuple[list[tuple], bytes]:
     world = World5(k, seed)
     try:
         viol = [(f"{o}|{l}", f"[{l}] {d}", -1, 0) for o, d, l in world.setup_violations]
-        for n, ev in enumerate(history):
+        for n, ev in enumerate([] if world.broken else history):
             if not world.enabled(ev):
                 raise HarnessError(f"event {ev} is not enabled at step {n} of {history}")
             v, _ = world.apply(ev)
@@ -790,7 +790,12 @@ def _work(chunk: list) -> list:
                 for o, d, l in world.setup_violations:
                     acc.add_viol(f"{o}|{l}", f"[{l}] {d}", [])
                 acc.states.add(world.trace[-1])
-                en = [ev for ev in world.alphabet() if world.enabled(ev)]
+                acc.transitions += world.injections       # the setup's own packets (one out, one back per circuit)
+                acc.injections += world.injections
+                acc.by_kind["setup"] = world.injections
+                en = [] if world.broken else [ev for ev in world.alphabet() if world.enabled(ev)]
+                if not en:
+                    acc.leaf((), world.trace)
                 out.append((acc, en, len(world.alphabet()), prefix))
                 continue
             hist = ()
@@ -857,11 +862,19 @@ def bounds(ctx: core.Ctx) -> list[tuple[int, int]]:
     if os.environ.get("C05_BOUNDS"):      # for experiments: "3:2,4:1"
         return [tuple(int(x) for x in part.split(":")) for part in os.environ["C05_BOUNDS"].split(",")]
     if ctx.thorough:
-        return [(1, 4), (2, 4), (3, 4), (4, 3), (6, 2)]
+        return [(1, 4), (2, 4), (3, 3), (4, 3), (6, 2)]
     return [(1, 3), (2, 3), (3, 3)]
 
 
 def run(ctx: core.Ctx) -> core.Report:
+    try:
+        return _run(ctx)
+    except HarnessError as e:
+        core.eprint(f"C05: the harness could not do its job (not a verdict about the property): {e}")
+        sys.exit(2)
+
+
+def _run(ctx: core.Ctx) -> core.Report:
     seed = ctx.seed
     violations: dict[str, core.Violation] = {}
     per_world = []
